@@ -54,8 +54,9 @@ def verify_tree():
     b = None
     dropped = set()
     dropped_contracts = set()
-    for attempt in range(10):
-        b = vrun.build(force_assumed=forced, drop_ghost=sorted(dropped), drop_contract=sorted(dropped_contracts))
+    ext_items = set()
+    for attempt in range(12):
+        b = vrun.build(force_assumed=forced, drop_ghost=sorted(dropped), drop_contract=sorted(dropped_contracts), external_items=sorted(ext_items))
         res = vrun.run_verus(b['text'])
         fails, tool = vrun.classify(res, b['text'], b['registry'])
         for f in fails:
@@ -83,6 +84,15 @@ def verify_tree():
                         new_drop.add(gi)
             if new_drop:
                 dropped |= new_drop
+                continue
+            new_ext = set()
+            for t in tool:
+                if t.get('compile') and t['fn'] not in known:
+                    mi = vrun.module_item_at(b['text'], t['line'])
+                    if mi and mi not in ext_items:
+                        new_ext.add(mi)
+            if new_ext:
+                ext_items |= new_ext
                 continue
             comp = set()
             if not hard:
@@ -119,7 +129,7 @@ def verify_tree():
             if ok_seed is not None:
                 all_fail = [f for f in all_fail if f['fn'] != fn]
                 tool = [t for t in tool if t['fn'] != fn]
-    return {'build': b, 'failures': all_fail, 'tool': tool + [t for t in tool_hist if t not in tool], 'res': res, 'forced': sorted(forced), 'retried': retried, 'dropped_ghost': sorted(dropped), 'dropped_contracts': sorted(dropped_contracts)}
+    return {'build': b, 'failures': all_fail, 'tool': tool + [t for t in tool_hist if t not in tool], 'res': res, 'forced': sorted(forced), 'retried': retried, 'dropped_ghost': sorted(dropped), 'dropped_contracts': sorted(dropped_contracts), 'external_items': sorted(ext_items)}
 
 
 def fn_results(res):
@@ -616,6 +626,7 @@ def main():
             'forced_assumed_after_module_abort': V['forced'],
             'contracts_dropped_because_the_signature_changed': V.get('dropped_contracts', []),
             'ghost_items_dropped_because_they_no_longer_compile': ['%s: %s' % d_ for d_ in V.get('dropped_ghost', [])],
+            'module_level_items_left_outside_verification': ['%s: %s' % d_ for d_ in V.get('external_items', [])],
             'failing_functions_retried_with_other_seeds': {k_: ('discharged with seed %s' % v_ if v_ is not None else 'still failing') for k_, v_ in V.get('retried', {}).items()},
         },
         'assumptions': props.assumptions(b, pid),
